@@ -23,3 +23,26 @@ pub struct PoolOrigin<R> {
     /// The idle connections, bottom of the stack first, mapped through the caller's projection.
     pub idle: Vec<R>,
 }
+
+/// Holds the pool lock while a caller-supplied closure runs (typically on another thread).
+#[cfg(feature = "client")]
+pub struct PoolLock(Box<dyn FnOnce(Box<dyn FnOnce() + Send>) + Send>);
+
+#[cfg(feature = "client")]
+impl PoolLock {
+    pub(crate) fn new(hold: impl FnOnce(Box<dyn FnOnce() + Send>) + Send + 'static) -> Self {
+        Self(Box::new(hold))
+    }
+
+    /// Takes the pool lock (if the pool still exists), runs `f` with the lock held, releases it.
+    pub fn hold(self, f: impl FnOnce() + Send + 'static) {
+        (self.0)(Box::new(f))
+    }
+}
+
+#[cfg(feature = "client")]
+impl std::fmt::Debug for PoolLock {
+    fn fmt(&self, f: &mut std::fmt::Formatter<'_>) -> std::fmt::Result {
+        f.write_str("PoolLock")
+    }
+}
